@@ -42,6 +42,7 @@ def run(ctx):
             ctx.guard("C13", "mirror", lambda: engine.mirror(ctx, prog))
             ctx.guard("C13", "enginemap", lambda: engine.engine_correspondence(ctx, base, prog))
         ctx.guard("C13", "const values", lambda: data.const_census(ctx, prog, data.CONST_SCOPES["C13"], floor=1))
+        ctx.guard("C13", "overflow-borders", lambda: gen.overflow_borders(ctx, prog))
         ctx.guard("C13", "summaries", lambda: summary.check(ctx, prog, 'internals::generate::Generator', floor=5))
         ctx.guard("C13", "path summaries", lambda: summary.check_paths(ctx, prog, 'internals::generate::Generator', floor=2))
         if c in ("dbg", "unsafe_dbg", "strict_dbg"):
